@@ -35,6 +35,8 @@ Violation keys are `<mechanism>-<Env>`; one mechanism per key:
   mj-model-array / mj-static-<what>       model or static attribute differs
   mj-reset-distribution                   reset sample outside Gymnasium's reset support
   mj-constructor-option-raises            a documented option cannot be constructed / run
+  mj-reward-components-not-reported       a Gymnasium v5 reward component is absent from transition_info
+  mj-transition-derived-data              contact-free step: qpos/qvel agree but an array Gymnasium's obs reads differs
 """
 
 from __future__ import annotations
@@ -71,9 +73,20 @@ MJ_ASSUMPTIONS = [
     "termination / survive-reward disagreements that flip under a 4e-6 relative perturbation of the loaded "
     "data are float32-vs-float64 threshold ties: excluded and counted (termination_boundary_ambiguous)",
     "HumanoidStandup uph_cost_weight is not varied: Gymnasium v5 itself ignores that argument",
-    "info / reward components are compared on the keys both sides report; Gymnasium keys that lerax does "
-    "not report are listed in the unit notes, not judged",
+    "lerax ships humanoid.xml / humanoidstandup.xml with solver=Newton where Gymnasium has PGS (MJX has no PGS): "
+    "solver / iteration / tolerance options are numerical-method choices, noted in the evidence, not judged; "
+    "timestep, integrator, gravity, cone, impratio, flags, density, viscosity, wind are judged",
+    "reset-range monitor skips quaternion coordinates (MJX normalises them in place in forward, C keeps raw "
+    "numbers for the same physical state); whether they have unit norm is noted",
+    "info / reward components are compared on the keys both sides report; a Gymnasium reward component "
+    "(reward_* / *_penalty) that lerax does not report is a violation of its own (JUDGE_MISSING_REWARD_COMPONENTS); "
+    "other Gymnasium-only info keys are listed in the unit notes, not judged",
 ]
+
+# The property text lists "reward components" among the things that must equal Gymnasium's.  A Gymnasium v5
+# reward component (info key reward_* / *_penalty) that lerax's transition_info does not report under that name
+# is judged (its own key); other Gymnasium-only info keys (z_distance_from_origin, y_velocity) are only noted.
+JUDGE_MISSING_REWARD_COMPONENTS = True
 
 _BOOLS = {
     "Ant": ["terminate_when_unhealthy", "exclude_current_positions_from_observation",
@@ -159,11 +172,15 @@ def _configs(name, ctx, init_qpos):
     nnum = ctx.n(1, 3)
     for j in range(nnum):
         out.append((f"numeric{j}", _numeric_variation(name, ctx.rng, init_qpos)))
+    if name == "InvertedDoublePendulum":
+        # the only way to reach |qvel| > 10 (observation clip) before the episode terminates
+        out.append(("wide-noise", dict(reset_noise_scale=float(np.round(ctx.rng.uniform(4, 8), 3)))))
     if bools:
-        out.append(("flipped", {b: False for b in bools}))
+        # numeric options do not change the compiled program, so the flipped booleans are run with tightened
+        # healthy ranges too (otherwise "terminate_when_unhealthy=False" never meets an unhealthy state)
+        out.append(("flipped-numeric", {**_numeric_variation(name, ctx.rng, init_qpos), **{b: False for b in bools}}))
         if not ctx.quick:
-            out.append(("flipped-numeric", {**_numeric_variation(name, ctx.rng, init_qpos),
-                                            **{b: False for b in bools}}))
+            out.append(("flipped", {b: False for b in bools}))
         if not ctx.quick and len(bools) >= 3:
             out.append(("mixed-a", {b: (i % 2 == 0) for i, b in enumerate(bools)}))
             out.append(("mixed-b", {b: (i % 2 == 1) for i, b in enumerate(bools)}))
@@ -400,7 +417,20 @@ def _reset_support(h, nkeys):
         if np.any(qv[:, -4:] != 0):
             bad["object-goal-velocity-not-zero"] = {}
     else:
-        bounded(dq, scale, "qpos")
+        # quaternion coordinates of free / ball joints: MJX's forward pass normalises them in place, the C
+        # engine keeps the raw numbers (same physical state) -> not range-checked, only noted
+        m = h.gd.model
+        quat = np.zeros(m.nq, bool)
+        for j in range(m.njnt):
+            a0 = int(m.jnt_qposadr[j])
+            if int(m.jnt_type[j]) == 0:
+                quat[a0 + 3:a0 + 7] = True
+            elif int(m.jnt_type[j]) == 1:
+                quat[a0:a0 + 4] = True
+        if quat.any():
+            nrm = np.linalg.norm(qp[:, quat].reshape(nkeys, -1, 4), axis=-1)
+            ctx.notes.setdefault("reset_quaternion_unit_norm", {})[h.label] = bool(np.all(np.abs(nrm - 1) < 1e-5))
+        bounded(dq[:, ~quat], scale, "qpos")
         if normal_v:
             z = dv / scale
             # 5.5 sigma two-sided per entry over nkeys*nv draws stays silent on correct code
@@ -524,16 +554,22 @@ def _gym_formula_step(h, before, after, action, first_true=None, scale=1.0):
     return np.array(obs, np.float64), float(rew), bool(term), {k: np.array(v, np.float64) for k, v in info.items()}
 
 
-def _ambiguous_boundary(h, before, after, action, lterm, first_true=None):
-    """Does Gymnasium's verdict flip under a tiny relative perturbation of the loaded data?"""
+def _health_signature(term, info):
+    v = info.get("reward_survive")
+    return (bool(term), None if v is None else round(float(np.asarray(v).reshape(-1)[0]), 6))
+
+
+def _ambiguous_boundary(h, before, after, action, first_true=None):
+    """Does Gymnasium's healthy/terminated verdict flip under a tiny relative perturbation of the loaded data?
+    Then the state sits on a threshold within float32 resolution and the step is excluded (and counted)."""
     seen = set()
-    for sc in (1 - 4e-6, 1 + 4e-6):
+    for sc in (1 - 4e-6, 1.0, 1 + 4e-6):
         try:
-            _, _, t, _ = _gym_formula_step(h, before, after, action, first_true=first_true, scale=sc)
+            _, _, t, info = _gym_formula_step(h, before, after, action, first_true=first_true, scale=sc)
         except Exception:
             return False
-        seen.add(t)
-    return bool(lterm) in seen or len(seen) > 1
+        seen.add(_health_signature(t, info))
+    return len(seen) > 1
 
 
 _CLEARANCE = 0.02
@@ -687,7 +723,7 @@ def _run_config(h, nkeys, nsteps, nlift):
                 got = (lobs, lrew, lterm, linfo)
                 amb = False
                 if want[2] != lterm or abs(want[1] - lrew) > 1e-4 + 1e-5 * abs(want[1]):
-                    if name in _TERMINATING and _ambiguous_boundary(h, before, after, a, lterm):
+                    if name in _TERMINATING and _ambiguous_boundary(h, before, after, a):
                         amb = True
                         ctx.monitor("termination_boundary_ambiguous")
                 if not amb:
@@ -697,9 +733,21 @@ def _run_config(h, nkeys, nsteps, nlift):
                     track("formula_obs", lobs, want[0])
                     track("formula_reward", lrew, want[1])
                     ctx.monitor("terminated_true_steps" if want[2] else "terminated_false_steps")
+                    if not want[2] and "terminate_when_unhealthy" in _BOOLS[name] and bool(getattr(h.gf, "is_healthy", True)) is False:
+                        ctx.monitor("unhealthy_but_not_terminated_steps")
+                    if name in ("Hopper", "Walker2d", "InvertedDoublePendulum") and np.max(np.abs(after["qvel"])) > 10:
+                        ctx.monitor("observation_velocity_clip_active_steps")
                     missing = sorted(set(want[3]) - set(linfo))
                     if missing:
                         ctx.notes.setdefault("gymnasium_info_keys_not_reported_by_lerax", missing)
+                    comps = [k for k in missing if k.startswith("reward_") or k.endswith("_penalty")]
+                    if comps and JUDGE_MISSING_REWARD_COMPONENTS and not h.__dict__.get("_components_reported"):
+                        h._components_reported = True
+                        h.viol("mj-reward-components-not-reported",
+                               {"monitor": "formula", "what": "Gymnasium v5 reports these reward components in info; "
+                                "lerax's transition_info has no entry of that name",
+                                "missing": comps, "gymnasium_info": {k: want[3][k] for k in comps},
+                                "lerax_transition_info_keys": sorted(linfo), **wit})
                     if first:
                         # first step of an episode: Gymnasium's "before" arrays are the true kinematics
                         want1 = _gym_formula_step(h, None, after, a, first_true=(qpos, qvel))
@@ -712,6 +760,11 @@ def _run_config(h, nkeys, nsteps, nlift):
                         if not (same_as_formula["obs"] and same_as_formula["reward"]) or want1[2] != want[2] or any(
                                 not _cmp(want1[3][k], want[3][k], 1e-4, 1e-5)[0] for k in want[3]):
                             diffk = [k for k in want[3] if not _cmp(want1[3][k], want[3][k], 1e-4, 1e-5)[0]]
+                            ctx.notes.setdefault("first_step_witness_initial_without_forward", {
+                                "config": h.label, "key_index": kidx, "qpos": qpos.tolist(), "qvel": qvel.tolist(),
+                                "action": a.tolist(), "lerax_reward": lrew, "gymnasium_reward_after_reset": want1[1],
+                                "info_lerax": {k: float(np.asarray(linfo[k]).reshape(-1)[0]) for k in diffk if k in linfo},
+                                "info_gymnasium": {k: float(np.asarray(want1[3][k]).reshape(-1)[0]) for k in diffk}})
                             h.viol("mj-initial-without-forward-kinematics",
                                    {"monitor": "first-step/reward", "what": "Gymnasium's step() gives a different result when the "
                                     "pre-step arrays are lerax's initial() data instead of the reset kinematics",
@@ -740,13 +793,13 @@ def _run_config(h, nkeys, nsteps, nlift):
                         {k: np.asarray(v, np.float64) for k, v in rinfo.items()})
                 vel_extra = 4 * _EPS32 * (1 + float(np.max(np.abs(c_after["qpos"])))) / h.dt * W
                 amb = False
-                if rgot[2] != gterm:
+                if name in _TERMINATING and (rgot[2] != gterm or abs(rgot[1] - grew) > 2e-4 + 1e-5 * abs(grew) + vel_extra):
                     # threshold tie after the float32 cast of the C engine's data?
-                    zs = []
+                    zs = {_health_signature(rgot[2], rgot[3])}
                     for scl in (1 - 4e-6, 1 + 4e-6):
-                        zs.append(bool(fns["judge"](env, s, jnp.asarray(a), ns, cvb,
-                                                    jnp.asarray((cva * scl).astype(np.float32)), jkey)[2]))
-                    amb = gterm in zs
+                        r2 = fns["judge"](env, s, jnp.asarray(a), ns, cvb, jnp.asarray((cva * scl).astype(np.float32)), jkey)
+                        zs.add(_health_signature(bool(r2[2]), {k: np.asarray(v) for k, v in r2[3].items()}))
+                    amb = len(zs) > 1
                     if amb:
                         ctx.monitor("termination_boundary_ambiguous")
                 if not amb:
@@ -793,6 +846,8 @@ def _run_config(h, nkeys, nsteps, nlift):
                         contact_stats["witness"] = {**wit, "ncon_trace": ncon,
                                                     "gymnasium_cfrc_ext_sum_sq": float(np.sum(c_after["cfrc_ext"] ** 2)),
                                                     "lerax_cfrc_ext_sum_sq": float(np.sum(after["cfrc_ext"] ** 2)),
+                                                    "observation_entries_zero_in_lerax_nonzero_in_gymnasium": int(np.sum(
+                                                        (lobs == 0) & (np.abs(gobs) > 1e-6))) if lobs.shape == gobs.shape else None,
                                                     "gymnasium_info": {k: ginfo[k] for k in ginfo if "contact" in k or "impact" in k},
                                                     "lerax_info": {k: linfo[k] for k in linfo if "contact" in k or "impact" in k}}
 
@@ -921,8 +976,16 @@ def run_mujoco_unit(name, ctx):
     nlift = ctx.n(1, 4) if env_name in _ROOT_Z else 0
     base_by_static = {}
     t0 = time.time()
+    last_sig = None
     for label, kw in _configs(env_name, ctx, init_qpos):
         static_sig = tuple(sorted((k, v) for k, v in kw.items() if isinstance(v, bool)))
+        if last_sig is not None and static_sig != last_sig:
+            # the compiled programs of the previous boolean signature are not needed any more (memory)
+            import jax
+
+            base_by_static.clear()
+            jax.clear_caches()
+        last_sig = static_sig
         try:
             h = _Harness(ctx, env_name, label, kw, fns, base_by_static.get(static_sig))
         except Exception as e:
@@ -932,13 +995,22 @@ def run_mujoco_unit(name, ctx):
             continue
         base_by_static.setdefault(static_sig, h.env)
         ctx.monitor("configurations_run")
-        _model_identity(h)
+        try:
+            _model_identity(h)
+        except Exception as e:
+            ctx.inconc(f"{label}: model identity monitor crashed: {e!r}"[:400])
         try:
             _reset_support(h, ctx.n(64, 512))
         except Exception as e:
             h.viol("mj-constructor-option-raises", {"where": "vmapped initial", "error": repr(e)[:400]})
-        k = nkeys if label in ("default", "flipped") else max(3, nkeys // 2)
-        _run_config(h, k, nsteps, nlift if label == "default" else 0)
+        k = nkeys if label in ("default", "flipped-numeric") else max(3, nkeys // 2)
+        try:
+            _run_config(h, k, nsteps, nlift if label == "default" else 0)
+        except Exception:
+            import traceback
+
+            # a crash of the harness in one configuration must not hide what the others observe
+            ctx.inconc(f"configuration {label} crashed: " + traceback.format_exc()[-800:])
         ctx.notes.setdefault("config_wall_s", {})[label] = round(time.time() - t0, 1)
         h.gf.close()
         h.gd.close()
